@@ -83,3 +83,88 @@ Theorem C11_teardown_releases_guards_v2_refuted :
       end = true).
 Proof. exact (conj dlq_open_leak_v2 (conj dlq_open_leak_refuses_start_v2 proc_open_leak_v2)). Qed.
 Print Assumptions C11_teardown_releases_guards_v2_refuted.
+
+(* ================================================================================================
+   The default engine (v1) satisfies the statements for EVERY interleaving in which no Start takes its
+   status check while the status is Recovering (polite_run); the refutations above all go through a
+   Start admitted during the recovery back-off.  Proof: inductive invariant Life/RunMapInv.v (Inv). *)
+From Verif Require Import Life.RunMapInv.
+
+Theorem C11_running_implies_map_is_live_v1_partial : forall c acts s,
+  c_engine c = V1 -> polite_run c init acts -> run_acts c init acts = Some s ->
+  s_status s = Running ->
+  exists r, s_map s = Some r /\ s_cur s = Some r /\ alive (s_runs s r).
+Proof.
+  intros c acts s Hv Hp Hr. apply running_implies_map_is_live_inv.
+  exact (proj1 (run_Inv_GG c acts Hv init s Inv_init GG_init Hp Hr)).
+Qed.
+Print Assumptions C11_running_implies_map_is_live_v1_partial.
+
+(* a WaitPipeline / Stop / StopAndWait that looks the pipeline up while it is Running resolves the run that
+   announced Running (same statement: they resolve through the map), and a wait that joined run r returns
+   the result of r's tomb *)
+Theorem C11_wait_returns_that_runs_result_v1_partial : forall c acts s,
+  c_engine c = V1 -> polite_run c init acts -> run_acts c init acts = Some s ->
+  (s_status s = Running -> exists r, s_map s = Some r /\ s_cur s = Some r /\ alive (s_runs s r))
+  /\ (forall id r s' l, get_wait (s_waits s) id = Some (WJoin r) -> waiter_step s id = Some (s', l) ->
+        exists x, r_res (s_runs s r) = Some x /\ r < s_next s /\ l = LTau).
+Proof.
+  intros c acts s Hv Hp Hr. split.
+  - apply running_implies_map_is_live_inv. exact (proj1 (run_Inv_GG c acts Hv init s Inv_init GG_init Hp Hr)).
+  - intros id r s' l. apply wait_returns_joined_result.
+Qed.
+Print Assumptions C11_wait_returns_that_runs_result_v1_partial.
+
+Theorem C11_status_agrees_with_last_run_end_v1_partial : forall c acts s,
+  c_engine c = V1 -> polite_run c init acts -> run_acts c init acts = Some s ->
+  quiescent s = true -> agrees s = true.
+Proof.
+  intros c acts s Hv Hp Hr. apply status_agrees_inv.
+  exact (proj1 (run_Inv_GG c acts Hv init s Inv_init GG_init Hp Hr)).
+Qed.
+Print Assumptions C11_status_agrees_with_last_run_end_v1_partial.
+
+Theorem C11_teardown_releases_guards_v1_partial : forall c acts s,
+  c_engine c = V1 -> polite_run c init acts -> run_acts c init acts = Some s ->
+  quiescent s = true -> live_runs s = [] -> guards_free s = true.
+Proof.
+  intros c acts s Hv Hp Hr.
+  destruct (run_Inv_GG c acts Hv init s Inv_init GG_init Hp Hr) as [HI HG].
+  apply guards_released_inv; assumption.
+Qed.
+Print Assumptions C11_teardown_releases_guards_v1_partial.
+
+(* non-vacuity: a polite interleaving (start, fail, recover, restart, stop) that ends quiescent *)
+Example C11_nonvacuous :
+  let acts := start_v1 0 ++ [AOpen 0] ++ fail_v1 0 CaTransient ++ clean 0 10 ++ [AOpen 1; ACall KStop 1] ++ user 4
+              ++ [ATd 1; AEnd 1] ++ clean 1 4 in
+  match run_acts (cfg_v1 true) init acts with
+  | Some s => quiescent s && agrees s && guards_free s && status_eqb (s_status s) UserStopped
+  | None => false
+  end = true.
+Proof. vm_compute. reflexivity. Qed.
+
+Example C11_nonvacuous_polite :
+  polite_run (cfg_v1 true) init
+    (start_v1 0 ++ [AOpen 0] ++ fail_v1 0 CaTransient ++ clean 0 10 ++ [AOpen 1; ACall KStop 1] ++ user 4
+     ++ [ATd 1; AEnd 1] ++ clean 1 4).
+Proof. vm_compute. repeat split; try exact I; intros; discriminate. Qed.
+
+(* ================================================================================================
+   Tie between the theorems and the observed behaviour: the trace acceptor is sound. Every event log of
+   the real service that the check accepts (bit 0 clear) is the observable trace of an interleaving of the
+   model; the theorems above hold for the state the model is in after that log. *)
+From Verif Require Import Life.Accept Life.AcceptProofs.
+
+Theorem C11_accepted_log_is_a_model_interleaving : forall c log,
+  accepts c log = true -> exists s', explains c init log s'.
+Proof. exact accepts_sound. Qed.
+Print Assumptions C11_accepted_log_is_a_model_interleaving.
+
+Theorem C11_at_most_one_live_run_after_accepted_log : forall c log,
+  accepts c log = true -> exists s', explains c init log s' /\ n_open s' <= 1.
+Proof.
+  intros c log H. destruct (accepts_sound c log H) as [s' Hex]. exists s'. split; [exact Hex|].
+  destruct (explains_run c _ _ _ Hex) as [acts Ha]. eapply at_most_one_live_run; eauto.
+Qed.
+Print Assumptions C11_at_most_one_live_run_after_accepted_log.
